@@ -346,8 +346,17 @@ where
     type Item = Step;
 
     fn next(&mut self) -> Option<Self::Item> {
-        let (Reverse(w_prev), u) = self.heap.pop()?;
         let dist_ptr = self.dist.as_mut_ptr();
+
+        // The heap may hold superseded entries (a shorter path to the same
+        // vertex was found later); skip them instead of ending the iteration.
+        let (w_prev, u) = loop {
+            let (Reverse(w_prev), u) = self.heap.pop()?;
+
+            if w_prev == unsafe { *dist_ptr.add(u) } {
+                break (w_prev, u);
+            }
+        };
 
         for (v, w) in self.digraph.out_neighbors_weighted(u) {
             let w_next = w_prev + w;
@@ -360,11 +369,7 @@ where
             }
         }
 
-        if w_prev == unsafe { *dist_ptr.add(u) } {
-            return Some((u, w_prev));
-        }
-
-        None
+        Some((u, w_prev))
     }
 }
 
